@@ -1,6 +1,7 @@
 import Rtcm.Model.WF
 import Rtcm.Gen.Tables
 import Rtcm.Pinned.Sizes
+import Rtcm.Pinned.Defs
 import Rtcm.Lemmas.Decodable
 import Rtcm.Props.Base
 /-
@@ -34,6 +35,15 @@ theorem C10_igs_third_is_IDF002 : ∀ e ∈ T.igs, igsHeaderOk T e.2 = true := b
     per pinned identity, the fixed part and the bits per iteration of each counter path -/
 theorem C10_pinned_sizes :
     ∀ p ∈ Pinned.sizes, (getDict T p.1).map (sizeForm T) = some p.2 := by decide +kernel
+
+/-- **the definitions are the standards' definitions**: for the 121 identities whose layout is
+    pinned (observations, station messages, GPS / GLONASS ephemerides, 1029, 1230, SSR 1057-1068,
+    all 49 MSM, IGS SSR 021-027 of six constellations and 201) the regenerated definition has
+    exactly the pinned field sequence, repeat counters and conditions — so two fields of equal
+    width cannot be transposed, nor a group counted by another field, without this breaking.
+    One-directional: identities that are not pinned are free. -/
+theorem C10_definitions_pinned :
+    ∀ p ∈ Pinned.defs, (getDict T p.1).map (itemsTokens T) = some p.2 := by decide +kernel
 
 end Rtcm
 
